@@ -209,7 +209,7 @@ func (p *provRunner) genOne(r *Rng, prof provProfile) string {
 	ws := []int{prof.wCreate, prof.wUpdate, prof.wRemove, prof.wOpt, prof.wAssign, prof.wStake, prof.wBlock, prof.wChan, prof.wSlash, prof.wMisc, prof.wParams, prof.wVal, prof.wInfr, prof.wReward, prof.wEvid}
 	switch pickWeighted(r, ws) {
 	case 0: // create
-		if prof.conns > 0 && r.chance(30) {
+		if prof.conns > 0 && r.chance(45) {
 			// directed: a consumer was launched on an existing connection and is now STOPPED (its client is
 			// still bound to it until deletion): try to launch another consumer on that same connection now
 			for _, id := range p.consumerIds() {
@@ -308,6 +308,15 @@ func (p *provRunner) genOne(r *Rng, prof provProfile) string {
 		return s + genInfr(r)
 	case 2: // remove
 		c := p.pickConsumer(r)
+		if prof.conns > 0 && r.chance(45) {
+			// prefer a launched consumer that sits on a pre-existing connection (see the directed create)
+			for _, id := range p.consumerIds() {
+				if p.prev[id]["phase"] == "3" && strings.HasPrefix(p.prev[id]["conn"], "connection-90") {
+					c = id
+					break
+				}
+			}
+		}
 		sender := p.ownerOf(c)
 		if r.chance(15) {
 			sender = p.users(r)
@@ -1158,8 +1167,8 @@ func (p *provRunner) genMisb(r *Rng, prof provProfile) string {
 			k := strings.Split(kv, ":")[0]
 			v2 = append(v2, fmt.Sprintf("%s:%d", k, 1+r.intn(4)))
 		}
-		if r.chance(30) {
-			v2 = append(v2, fmt.Sprintf("%d:%d", p.genKey(r, prof), 1+r.intn(2)))
+		if k := p.genKey(r, prof); r.chance(30) && !used[k] {
+			v2 = append(v2, fmt.Sprintf("%d:%d", k, 1+r.intn(2)))
 		}
 		vals2 = " vals2=" + strings.Join(v2, ",")
 		b := bytes.Repeat([]byte{'c'}, len(v2))
